@@ -26,10 +26,12 @@ CONSTANTS NF,        \* top-level fields of the resource
           Mutants    \* set of seeded defects explored besides "none"
 
 VARIABLES reg, streams, obs, steps, mut, caught,
+          nudged,      \* a Nudge has been made: the history then only ends with Nudges and Gets (as generated: afterwards
+                       \* the register is within tolerance of what the streams last showed)
           timer, tv    \* timed behaviour started by a TimedUpdate: "off" | "armed" | "stale" (superseded, but a defective
                        \* server still lets it fire), and the value it will write
 
-vars == <<reg, streams, obs, steps, mut, caught, timer, tv>>
+vars == <<reg, streams, obs, steps, mut, caught, timer, tv, nudged>>
 
 Vals  == [1..NF -> 0..MaxId]
 Names == {"a", "b"}
@@ -66,6 +68,7 @@ Init ==
   /\ caught = FALSE
   /\ timer = "off"
   /\ tv = Zero
+  /\ nudged = FALSE
 
 Other(a, b) == CHOOSE w \in Vals : w # a /\ w # b
 
@@ -200,7 +203,7 @@ Nudge(r, echo) ==
   /\ obs' = [op |-> "Nudge", pre |-> G(reg), post |-> G(stored), code |-> "OK", mask |-> M(TRUE, <<>>), sub |-> Zero,
              resp |-> r, streams |-> [j \in 1..Len(streams) |-> Snap(streams[j])]]
 
-Step ==
+StepAny ==
   \* the update mask and the written value do not influence the reference machine (business rules are
   \* opaque), so they are not varied except where a mutant uses the written value
   \/ \E x \in (IF mut \in {"response-is-request", "rejected-update-writes", "rejected-update-publishes"} THEN Vals ELSE {reg}),
@@ -218,6 +221,11 @@ Step ==
   \/ TimedUpdate(Other(reg, reg), Other(reg, Other(reg, reg)))   \* one representative: start value # target # current
   \/ Wait
   \/ \E echo \in BOOLEAN : Nudge(Other(reg, reg), echo)
+
+Step ==
+  IF nudged THEN (\/ \E m \in Masks : Get(m)
+                  \/ \E echo \in BOOLEAN : Nudge(Other(reg, reg), echo)) /\ nudged' = TRUE
+  ELSE StepAny /\ nudged' = (obs'.op = "Nudge")
 
 Next ==
   /\ steps < MaxSteps
